@@ -752,6 +752,10 @@ class VectorContainer:
                 else:
                     value = str(value)
 
+            # Take the old values from the copy made above (rather than `self`):
+            # any objects they hold must not be shared with the original
+            old_values = reindexed.__dict__[f'_{name}']
+
             # Initialise the replacement with the correct length, and the fill
             # value
             reindexed.__dict__[f'_{name}'] = np.full(
@@ -761,7 +765,7 @@ class VectorContainer:
             # Copy over individual values
             # TODO: Vectorise this?
             for new, old in positions.items():
-                reindexed[name][new] = self[name][old]
+                reindexed[name][new] = old_values[old]
 
         return reindexed
 
